@@ -434,7 +434,7 @@ def parse_harness_specs(src: str, defaults: dict | None = None) -> list[HarnessS
             continue
         specs.append(HarnessSpec(
             name=name,
-            tier=meta.get("tier", "quick"),
+            tier=meta.get("tier", "debug"),
             obligation=meta.get("obligation", ""),
             timeout_s=int(meta.get("timeout", 900)),
             mem_gb=int(meta.get("mem", 14)),
